@@ -7,8 +7,8 @@ from sa.astx import assigned_targets, call_attr, call_name, dotted, lincmp, src,
 from sa.domains import HEXDIG, TCHAR, VCHAR, fmt_set
 from sa.effects import class_accesses
 from sa.selftest import Mutant, Silent
-from sa.source import class_assigns
-from sa.props._lib_e import (Unknown, assigns_self, call_in, calls_named, catches, check_name_encoder, falsy_until_exit,
+from sa.source import AnalysisError, class_assigns
+from sa.props._lib_e import (Unknown, assigns_self, call_in, calls_named, catches, check_hex_validators, check_name_encoder, check_token_validator, falsy_until_exit,
                              handlers_of, http_interp, is_const, is_falsy_return, local_values, make_env, only_nodes_until_exit,
                              ordered, resolve_local, self_attr, site_label, walk)
 
@@ -25,7 +25,9 @@ CHOOSE = "self._maybeChooseTransferDecoder"
 TECHNIQUE = "finite-domain evaluation of validators + CFG dominance/must-pass over HTTPChannel"
 EXPLANATION = (
     "Decides (a) by exhaustive evaluation of the source of _istoken/_ishexdigits/_hexint/_parseRequestLine over every byte value "
+    "(alone, leading, trailing, embedded; trailing LF/CRLF, NUL, blanks, empty - whatever idiom the validator is written in: loop, regex, set, translate) "
     "and a structural line domain that exactly RFC 9110 tchar / VCHAR / two HTTP versions / three SP-separated parts are accepted; "
+    "header names handed out by _NameEncoder.encode passed _istoken and its process-wide cache is filled only after that test (helpers followed one level); "
     "(b) on the CFGs of lineReceived/headerReceived/_maybeChooseTransferDecoder/_failChooseTransferDecoder/rawDataReceived that every "
     "rejecting site writes the 400, closes, and stops (only falsy returns follow), that every falsy return is preceded by a 400, that "
     "the results of headerReceived/_maybeChooseTransferDecoder are tested and a false result leaves without progress, and - by walking "
@@ -48,36 +50,8 @@ def _first(items):
 
 # ------------------------------------------------------------------------------------------------------
 def _byte_classes(ctx, I):
-    A = ctx.mod(ABNF)
-    singles = [bytes([v]) for v in range(256)]
-    dom = [b""] + singles + [b"a" + s for s in singles] + [s + b"A" for s in singles] + [b"0x1", b"+1", b"-1", b" 1", b"1 ", b"1_0", b"ff", b"FF", b"Content-Length"]
-    for name, table, what in (("_istoken", TCHAR, "RFC 9110 tchar"), ("_ishexdigits", HEXDIG, "HEXDIG")):
-        f = ctx.func(ABNF, name)
-        q = "twisted.web._abnf." + name
-        bad = None
-        acc = set()
-        for x in dom:
-            kind, val = I.outcome(f, [x])
-            want = bool(x) and all(c in table for c in x)
-            if kind == "ok" and val and len(x) == 1:
-                acc.add(x[0])
-            if kind != "ok" or bool(val) != want:
-                bad = bad or (x, kind, val)
-        ctx.check(bad is None, "byte-class/exact", q,
-                  f"{name} does not accept exactly 1*{what}: input {bad[0]!r} gives {bad[1]} {bad[2]!r}; accepted single bytes {fmt_set(acc)}" if bad else "",
-                  detail=f"accepts exactly 1*{what} over {len(dom)} inputs (every byte value alone, leading and trailing)")
-    f = ctx.func(ABNF, "_hexint")
-    bad = None
-    for x in dom:
-        kind, val = I.outcome(f, [x])
-        want = bool(x) and all(c in HEXDIG for c in x)
-        if want and not (kind == "ok" and val == int(x, 16)):
-            bad = bad or (x, kind, val)
-        if not want and not (kind == "raise" and I.is_sub(val, "ValueError")):
-            bad = bad or (x, kind, val)
-    ctx.check(bad is None, "byte-class/hexint", "twisted.web._abnf._hexint",
-              f"_hexint({bad[0]!r}) gives {bad[1]} {bad[2]!r} (must be int(x,16) for 1*HEXDIG and ValueError otherwise)" if bad else "",
-              detail="1*HEXDIG -> value, everything else (sign, 0x, whitespace, underscore, empty) -> ValueError")
+    check_token_validator(ctx, I)
+    check_hex_validators(ctx, I)
 
 
 def _ref_request_line(line: bytes):
@@ -108,7 +82,8 @@ def _request_line(ctx, I):
         "structure": [b"GET / HTTP/1.1", b"GET  / HTTP/1.1", b"GET / HTTP/1.1 ", b" GET / HTTP/1.1", b"GET /", b"GET", b"",
                       b"GET\t/\tHTTP/1.1", b"GET /\tHTTP/1.1", b"GET  HTTP/1.1", b" / HTTP/1.1", b"GET / a HTTP/1.1",
                       b"GET /a b HTTP/1.1", b"OPTIONS * HTTP/1.1", b"CONNECT a:1 HTTP/1.1", b"get /%20?x=y#z HTTP/1.0",
-                      b"GET\r/ HTTP/1.1", b"GET /\n HTTP/1.1", b"GET / HTTP/1.1\n", b"GET /\x00 HTTP/1.1"],
+                      b"GET\r/ HTTP/1.1", b"GET /\n HTTP/1.1", b"GET / HTTP/1.1\n", b"GET /\x00 HTTP/1.1", b"GET\n / HTTP/1.1", b"GET\r\n / HTTP/1.1",
+                      b"GET\x00 / HTTP/1.1", b"GET / HTTP/1.1\r\n", b"GET /\r\n HTTP/1.1", b"\nGET / HTTP/1.1", b"GET / HTTP/1.0\n"],
     }
     for name, dom in fam.items():
         bad = None
@@ -489,34 +464,51 @@ def _choose_decoder(ctx, I):
     _respond_sites(ctx, gf, qf, extra_ok=lambda nd: nd.kind == "stmt" and isinstance(nd.ast, ast.Assign) and isinstance(nd.ast.value, ast.Constant))
 
 
+def _header_case(x: bytes) -> bytes:
+    """Http-Header-Case, written out: every '-'-separated word capitalised."""
+    return b"-".join(w[:1].upper() + w[1:].lower() for w in x.split(b"-"))
+
+
 def _canonical(ctx, I, lits, q):
-    """Literals compared with the header name == canonical spellings produced by _NameEncoder.encode."""
-    f = ctx.func(HDRS, "_NameEncoder.encode")
+    """The literals the framing decision compares the (canonicalised) header name with are the canonical spellings of
+    exactly Content-Length and Transfer-Encoding; where the canonicalisation expression of _NameEncoder can be located
+    (in encode() or a helper) it must agree with Http-Header-Case on them."""
     cls = ctx.cls(HDRS, "_NameEncoder")
-    joins = [st for st in statements(f) if isinstance(st, ast.Assign) and isinstance(st.value, ast.Call) and call_attr(st.value) == "join"
-             and "capitalize" in src(st.value)]
-    ctx.need(joins, "canonicalisation expression (join of capitalised words) in _NameEncoder.encode")
-    expr = joins[0].value
-    free = sorted({n.id for n in ast.walk(expr) if isinstance(n, ast.Name) and isinstance(n.ctx, ast.Load)} - {"word"})
-    free = [n for n in free if any(isinstance(s, ast.Assign) and any(isinstance(t, ast.Name) and t.id == n for t in s.targets) for s in statements(f))
-            or n in [a.arg for a in f.args.args]]
-    ctx.need(len(free) == 1, "single input variable of the canonicalisation expression")
+    want = {b"content-length", b"transfer-encoding"}
+    ctx.check({l.lower() for l in lits} == want, "framing/headers-recognised", q,
+              f"the framing headers recognised are {sorted(lits)}; RFC 9112 6 requires exactly Content-Length and Transfer-Encoding")
     cm = class_assigns(cls).get("_caseMappings")
     try:
         mapping = I.ev(cm, {}) if cm is not None else {}
     except Exception:
         mapping = {}
-
-    def canon(x):
-        r = I.ev(expr, {free[0]: x})
-        return mapping.get(r, r)
-    want = {b"content-length", b"transfer-encoding"}
-    ctx.check({l.lower() for l in lits} == want, "framing/headers-recognised", q,
-              f"the framing headers recognised are {sorted(lits)}; RFC 9112 6 requires exactly Content-Length and Transfer-Encoding")
     for l in sorted(lits):
-        ok = all(canon(v) == l for v in (l, l.lower(), l.upper()))
-        ctx.check(ok, "framing/canonical-literal", f"{q} | {l!r}",
-                  f"header name literal {l!r} is not what _NameEncoder.encode produces ({canon(l.lower())!r}): the framing header would be ignored")
+        c = _header_case(l)
+        c = mapping.get(c, c)
+        ctx.check(c == l, "framing/canonical-literal", f"{q} | {l!r}",
+                  f"header name literal {l!r} is not the canonical Http-Header-Case spelling ({c!r}) that reaches _maybeChooseTransferDecoder: the framing header would be ignored")
+    with ctx.section("canonicalisation expression of _NameEncoder"):
+        found = []
+        for m in [n for n in cls.body if isinstance(n, (ast.FunctionDef, ast.AsyncFunctionDef))]:
+            for st in statements(m):
+                v = st.value if isinstance(st, (ast.Assign, ast.Return)) else None
+                if v is not None and any(isinstance(c, ast.Call) and call_attr(c) in ("capitalize", "title") for c in ast.walk(v)):
+                    bound = {t.id for comp in ast.walk(v) if isinstance(comp, ast.comprehension) for t in ast.walk(comp.target) if isinstance(t, ast.Name)}
+                    free = sorted({n.id for n in ast.walk(v) if isinstance(n, ast.Name) and isinstance(n.ctx, ast.Load)} - bound - set(I.consts) - set(I.funcs))
+                    if len(free) == 1:
+                        found.append((m, v, free[0]))
+        ctx.need(found, "canonicalisation expression (capitalised words) in _NameEncoder")
+        for m, expr, var in found:
+            bad = None
+            for l in sorted(want) + [b"CONTENT-LENGTH", b"Transfer-encoding", b"x-a-b"]:
+                try:
+                    got = I.ev(expr, {var: l})
+                except Exception as e:
+                    raise AnalysisError(f"canonicalisation expression not evaluable: {src(expr)[:80]} ({e})")
+                if got != _header_case(l) and bad is None:
+                    bad = (l, got)
+            ctx.check(bad is None, "framing/canonicalisation", ctx.construct("twisted.web.http_headers._NameEncoder." + m.name, expr),
+                      f"the canonical form of {bad[0]!r} is {bad[1]!r}, not Http-Header-Case: the framing literals no longer match received names" if bad else "")
 
 
 def _respond(ctx):
@@ -653,20 +645,20 @@ def _content_reset(ctx):
 
 def check(ctx):
     I = http_interp(ctx)
-    _byte_classes(ctx, I)
-    _request_line(ctx, I)
-    check_name_encoder(ctx, I)
-    _result_used(ctx, I)
-    _line_received(ctx, I)
-    _header_received(ctx, I)
-    _choose_decoder(ctx, I)
-    _respond(ctx)
-    _raw_data(ctx, I)
-    _identity_decoder(ctx)
-    _content_reset(ctx)
+    for name, fn in (("byte classes", lambda: _byte_classes(ctx, I)), ("request line", lambda: _request_line(ctx, I)),
+                     ("header name encoder", lambda: check_name_encoder(ctx, I)), ("validator results", lambda: _result_used(ctx, I)),
+                     ("lineReceived", lambda: _line_received(ctx, I)), ("headerReceived", lambda: _header_received(ctx, I)),
+                     ("framing decision", lambda: _choose_decoder(ctx, I)), ("400 response", lambda: _respond(ctx)),
+                     ("raw data", lambda: _raw_data(ctx, I)), ("identity decoder", lambda: _identity_decoder(ctx)),
+                     ("state reset", lambda: _content_reset(ctx))):
+        with ctx.section(name):
+            fn()
 
 
 MUTANTS = [
+    Mutant('token-regex-dollar-accepts-trailing-newline', ABNF, '    for c in b:\n        if c not in (\n            b"ABCDEFGHIJKLMNOPQRSTUVWXYZabcdefghijklmnopqrstuvwxyz"  # ALPHA\n            b"0123456789"  # DIGIT\n            b"!#$%&\'*+-.^_`|~"\n        ):\n            return False\n    return b != b""\n', '    return _TOKEN_RE.match(b) is not None\n', more=[(ABNF, '"""\n\n\ndef _istoken', '"""\n\nimport re\n\n_TOKEN_RE = re.compile(rb"[A-Za-z0-9!#$%&\'*+\\-.^_`|~]+$")\n\n\ndef _istoken')], expect_rule='byte-class/exact'),
+    Mutant('hexdigits-regex-dollar-accepts-trailing-newline', ABNF, '    for c in b:\n        if c not in b"0123456789abcdefABCDEF":\n            return False\n    return b != b""\n', '    return _HEX_RE.match(b) is not None\n', more=[(ABNF, '"""\n\n\ndef _istoken', '"""\n\nimport re\n\n_HEX_RE = re.compile(rb"[0-9a-fA-F]+$")\n\n\ndef _istoken')], expect_rule='byte-class/hex'),
+    Mutant('name-cached-by-helper-before-validation', HDRS, '        if not _istoken(bytes_name):\n            raise InvalidHeaderName(bytes_name)\n\n        result = b"-".join([word.capitalize() for word in bytes_name.split(b"-")])\n', '        result = self._remember(name, bytes_name)\n        if not _istoken(result):\n            raise InvalidHeaderName(bytes_name)\n        return result\n\n    def _remember(self, name, bytes_name):\n        result = b"-".join([word.capitalize() for word in bytes_name.split(b"-")])\n', expect_rule='header-name/cache-after-validation'),
     Mutant("F19a-revert-target-upper-bound-176", HTTP, "if c <= 32 or c > 126:", "if c <= 32 or c > 176:", expect_rule="request-line/target-byte"),
     Mutant("empty-target-accepted", HTTP, "    if request == b\"\":\n        raise ValueError(\"Empty request-target\")\n", "", expect_rule="request-line/"),
     Mutant("version-prefix-only", HTTP, "if version != b\"HTTP/1.1\" and version != b\"HTTP/1.0\":", "if not version.startswith(b\"HTTP/1.\"):",
@@ -724,6 +716,11 @@ MUTANTS = [
            "        result =", expect_rule="header-name/"),
 ]
 SILENT = [
+    Silent('token-regex-Z-anchored', ABNF, '    for c in b:\n        if c not in (\n            b"ABCDEFGHIJKLMNOPQRSTUVWXYZabcdefghijklmnopqrstuvwxyz"  # ALPHA\n            b"0123456789"  # DIGIT\n            b"!#$%&\'*+-.^_`|~"\n        ):\n            return False\n    return b != b""\n', '    return _TOKEN_RE.match(b) is not None\n', more=[(ABNF, '"""\n\n\ndef _istoken', '"""\n\nimport re\n\n_TOKEN_RE = re.compile(rb"[A-Za-z0-9!#$%&\'*+\\-.^_`|~]+\\Z")\n\n\ndef _istoken')]),
+    Silent('token-regex-fullmatch', ABNF, '    for c in b:\n        if c not in (\n            b"ABCDEFGHIJKLMNOPQRSTUVWXYZabcdefghijklmnopqrstuvwxyz"  # ALPHA\n            b"0123456789"  # DIGIT\n            b"!#$%&\'*+-.^_`|~"\n        ):\n            return False\n    return b != b""\n', '    return _TOKEN_RE.fullmatch(b) is not None\n', more=[(ABNF, '"""\n\n\ndef _istoken', '"""\n\nimport re\n\n_TOKEN_RE = re.compile(rb"[A-Za-z0-9!#$%&\'*+\\-.^_`|~]+")\n\n\ndef _istoken')]),
+    Silent('token-frozenset-all', ABNF, '    for c in b:\n        if c not in (\n            b"ABCDEFGHIJKLMNOPQRSTUVWXYZabcdefghijklmnopqrstuvwxyz"  # ALPHA\n            b"0123456789"  # DIGIT\n            b"!#$%&\'*+-.^_`|~"\n        ):\n            return False\n    return b != b""\n', '    return b != b"" and all(c in _TCHARS for c in b)\n', more=[(ABNF, '"""\n\n\ndef _istoken', '"""\n\n_TCHARS = frozenset(b"ABCDEFGHIJKLMNOPQRSTUVWXYZabcdefghijklmnopqrstuvwxyz0123456789!#$%&\'*+-.^_`|~")\n\n\ndef _istoken')]),
+    Silent('hexdigits-regex-fullmatch', ABNF, '    for c in b:\n        if c not in b"0123456789abcdefABCDEF":\n            return False\n    return b != b""\n', '    return _HEX_RE.fullmatch(b) is not None\n', more=[(ABNF, '"""\n\n\ndef _istoken', '"""\n\nimport re\n\n_HEX_RE = re.compile(rb"[0-9a-fA-F]+")\n\n\ndef _istoken')]),
+    Silent('name-cached-by-helper-after-validation', HDRS, '        if not _istoken(bytes_name):\n            raise InvalidHeaderName(bytes_name)\n\n        result = b"-".join([word.capitalize() for word in bytes_name.split(b"-")])\n', '        if not _istoken(bytes_name):\n            raise InvalidHeaderName(bytes_name)\n        return self._remember(name, bytes_name)\n\n    def _remember(self, name, bytes_name):\n        result = b"-".join([word.capitalize() for word in bytes_name.split(b"-")])\n'),
     Silent("target-bounds-rewritten", HTTP, "if c <= 32 or c > 126:", "if c < 33 or c >= 127:"),
     Silent("target-lower-bound-space-unreachable", HTTP, "if c <= 32 or c > 126:", "if c < 32 or c > 126:"),
     Silent("version-membership", HTTP, "if version != b\"HTTP/1.1\" and version != b\"HTTP/1.0\":", "if version not in (b\"HTTP/1.1\", b\"HTTP/1.0\"):"),
